@@ -514,6 +514,7 @@ type FuncSpec struct {
 	Name     string // ssa RelString relative to its package, e.g. (*PipelineRunner).startJob
 	Pkg      string
 	Requires []*Clause
+	Steps    []*Clause // step invariants: proved after every call instruction of the function
 	Assumes  []*Clause // assumed at entry, NOT checked at call sites: listed assumption (stable facts about entry points)
 	Ensures  []*Clause
 	Modifies []ModItem
@@ -569,6 +570,7 @@ type Contracts struct {
 	GuardedMem []PkgText
 	Monitors   []MonitorSpec
 	Writers    []WritersSpec
+	GlobalInits []WritersSpec
 }
 
 // WritersSpec: only the listed functions may contain a store to the field.
@@ -588,7 +590,7 @@ type MonitorSpec struct {
 func pkgKey(pkg, name string) string { return pkg + "::" + name }
 
 var clauseKeywords = map[string]bool{
-	"func": true, "requires": true, "ensures": true, "assumes": true, "modifies": true, "loop": true,
+	"func": true, "requires": true, "ensures": true, "assumes": true, "step": true, "globalinit": true, "modifies": true, "loop": true,
 	"pure": true, "property": true, "ghost": true, "lemma": true, "lockmode": true,
 	"at": true, "trusted": true, "safety": true, "end": true, "lpre": true, "lpost": true,
 	"writers": true, "allowread": true, "monitor": true, "lockdomain": true, "immutable": true, "unguarded": true, "guardedmap": true, "guardedmem": true,
@@ -686,6 +688,22 @@ func (c *Contracts) parseFile(path, pkg string) error {
 		case "end":
 			cur = nil
 			curLemma = nil
+		case "globalinit":
+			// globalinit var: allowed1, allowed2  (the package-level variable is initialised from one of these globals)
+			k := strings.Index(rest, ":")
+			if k < 0 {
+				return fmt.Errorf("%s: malformed globalinit line", where)
+			}
+			c.GlobalInits = append(c.GlobalInits, WritersSpec{Pkg: pkg, Field: strings.TrimSpace(rest[:k]), Funcs: splitTop(rest[k+1:]), Line: where})
+		case "step":
+			if cur == nil {
+				return fmt.Errorf("%s: step outside func", where)
+			}
+			cl, err := parseClause("step", rest, where)
+			if err != nil {
+				return err
+			}
+			cur.Steps = append(cur.Steps, cl)
 		case "requires", "ensures", "assumes":
 			if cur == nil {
 				return fmt.Errorf("%s: %s outside func", where, kw)
@@ -817,7 +835,7 @@ func (c *Contracts) parseFile(path, pkg string) error {
 				}
 				as.Target = lhs
 				as.E = rhs
-			case "apply":
+			case "apply", "use":
 				e, err := ParseExpr(r3)
 				if err != nil {
 					return fmt.Errorf("%s: %v", where, err)
